@@ -318,6 +318,11 @@ impl Env {
 }
 
 fn build_sys(spec: LogSpecification, env: &Env) -> Result<Sys, String> {
+    build_sys_sf(spec, env, None)
+}
+/// `specfile`: start with a specification file (created with `spec` as content if it does not exist) and the
+/// inotify watcher that applies every later change of the file through WritersHandle::set_new_spec.
+fn build_sys_sf(spec: LogSpecification, env: &Env, specfile: Option<&Path>) -> Result<Sys, String> {
     let prim: Got = Arc::new(Mutex::new(Vec::new()));
     let wr: Got = Arc::new(Mutex::new(Vec::new()));
     let seen = Arc::new(AtomicU32::new(0));
@@ -342,7 +347,11 @@ fn build_sys(spec: LogSpecification, env: &Env) -> Result<Sys, String> {
             drop: env.lf_drop,
         }));
     }
-    let (logger, handle) = l.build().map_err(|e| format!("err:{e}"))?;
+    let (logger, handle) = match specfile {
+        Some(f) => l.build_with_specfile(f),
+        None => l.build(),
+    }
+    .map_err(|e| format!("err:{e}"))?;
     Ok(Sys {
         logger,
         handle,
@@ -807,8 +816,16 @@ fn where_str(w: &Where) -> String {
     }
 }
 
-fn run_conc(sc: &Value, out: &mut Out) {
+fn run_conc(sc: &Value, out: &mut Out, root: &Path) {
     let env = Env::from(sc);
+    // a further source of concurrent changes: the specfile watcher (op "File" rewrites the file)
+    let with_specfile = sc["specfile"].as_bool().unwrap_or(false);
+    let sf_dir = root.join(format!("c12sf-{}", sc["sc"]));
+    let sf_file = sf_dir.join("spec.toml");
+    if with_specfile {
+        let _ = std::fs::remove_dir_all(&sf_dir);
+        let _ = std::fs::create_dir_all(&sf_dir);
+    }
     let empty = Vec::new();
     let progs = sc["progs"].as_array().unwrap_or(&empty).clone();
     let nthreads = progs.len();
@@ -824,7 +841,7 @@ fn run_conc(sc: &Value, out: &mut Out) {
     for prog in &progs {
         for call in prog.as_array().unwrap_or(&empty) {
             let op = call["op"].as_str().unwrap_or("");
-            if (op == "Set" || op == "Push") && !seen.contains(&call["spec"]) {
+            if (op == "Set" || op == "Push" || op == "File") && !seen.contains(&call["spec"]) {
                 seen.push(call["spec"].clone());
                 out.emit(
                     json!({"ev": "Ref", "ret": "ok", "init": false, "spec": call["spec"].clone(),
@@ -835,7 +852,8 @@ fn run_conc(sc: &Value, out: &mut Out) {
     }
     let mut ev = json!({"ev": "Build", "spec": sc["init"].clone(), "how": "mf"});
     let sys = match catch_unwind(AssertUnwindSafe(|| {
-        build_spec(&sc["init"], "mf", "").and_then(|s| build_sys(s, &env))
+        build_spec(&sc["init"], "mf", "")
+            .and_then(|s| build_sys_sf(s, &env, if with_specfile { Some(sf_file.as_path()) } else { None }))
     })) {
         Ok(Ok(s)) => s,
         Ok(Err(e)) => {
@@ -868,6 +886,7 @@ fn run_conc(sc: &Value, out: &mut Out) {
         let panics = panics.clone();
         let mut hd = sys.handle.clone();
         let prog = prog.clone();
+        let (sf_dir, sf_file) = (sf_dir.clone(), sf_file.clone());
         joins.push(std::thread::spawn(move || {
             crate::handler::set_tid(&id);
             let _ = flexi_logger::verif_hooks::point("sc:start", None);
@@ -890,6 +909,19 @@ fn run_conc(sc: &Value, out: &mut Out) {
                             }
                         }
                         "Pop" => hd.pop_temp_spec(),
+                        "Sleep" => std::thread::sleep(Duration::from_millis(call["ms"].as_u64().unwrap_or(1))),
+                        "File" => {
+                            // the user edits the specification file (atomically: write aside, rename over it)
+                            if let Ok(s) = build_spec(&call["spec"], "mf", "") {
+                                let mut buf = Vec::new();
+                                if s.to_toml(&mut buf).is_ok() {
+                                    let tmp = sf_dir.join(format!("edit-{}.tmp", id));
+                                    if std::fs::write(&tmp, &buf).is_ok() {
+                                        let _ = std::fs::rename(&tmp, &sf_file);
+                                    }
+                                }
+                            }
+                        }
                         _ => {}
                     }
                 }
@@ -989,6 +1021,20 @@ fn run_conc(sc: &Value, out: &mut Out) {
             clones.push(hd);
         }
     }
+    if with_specfile {
+        // "once all changes have returned": the watcher applies an edit about 1 s (its debounce time) after the
+        // last change of the file; wait for that, then until two observations 400 ms apart agree
+        std::thread::sleep(Duration::from_millis(2600));
+        let mut last = probe(&sys, &env, false).to_string();
+        for _ in 0..20 {
+            std::thread::sleep(Duration::from_millis(400));
+            let now = probe(&sys, &env, false).to_string();
+            if now == last {
+                break;
+            }
+            last = now;
+        }
+    }
     h().noise.store(0, Ordering::SeqCst);
     let ps = panics.lock().unwrap().clone();
     let mut ev = json!({"ev": "End", "sched": if diverged {"diverged"} else {"replayed"}});
@@ -1001,6 +1047,9 @@ fn run_conc(sc: &Value, out: &mut Out) {
     out.emit(ev);
     drop(clones);
     drop(sys);
+    if with_specfile {
+        let _ = std::fs::remove_dir_all(&sf_dir);
+    }
 }
 
 // ------------------------------------------------------------------ driver
@@ -1031,7 +1080,7 @@ fn run_scenario(sc: &Value, w: &mut dyn Write, root: &Path) -> usize {
     match kind.as_str() {
         "ops" => run_ops(sc, &mut out),
         "text" => run_text(sc, &mut out, root),
-        "conc" => run_conc(sc, &mut out),
+        "conc" => run_conc(sc, &mut out, root),
         x => out.emit(json!({"ev": "Unknown", "ret": format!("unknown-kind:{x}")})),
     }
     out.events
